@@ -512,7 +512,7 @@ Proof.
   - apply (Kx_close R); [exact Hk|exact Hr|]. intros lb0 b0 E _ E2. apply negb_false_iff in Eh. rewrite El in E. injection E as <-. rewrite Em in E2. injection E2 as <-. exact Eh.
 Qed.
 
-Lemma rule_same n1 R : height (unlock_rule n1 R) = height n1 /\ votes (unlock_rule n1 R) = votes n1 /\ round (unlock_rule n1 R) = round n1.
+Lemma rule_same n1 R : height (unlock_rule n1 R) = height n1 /\ votes (unlock_rule n1 R) = votes n1 /\ round (unlock_rule n1 R) = round n1 /\ step (unlock_rule n1 R) = step n1.
 Proof.
   unfold unlock_rule. destruct (lblock n1); [|auto]. destruct (_ && _); [|auto].
   destruct (maj23 _); [|auto]. destruct (negb _); auto.
@@ -525,9 +525,10 @@ Proof.
 Qed.
 
 Lemma presK_add_vote_cs off c v peer n n' o : c_skip_commit c = false -> node_ok VS h0 off n ->
-  height n = h0 -> K0 n -> add_vote_cs c v peer n = Ok (n', o) -> Out0 n'.
+  height n = h0 -> step n < 8 -> K0 n -> add_vote_cs c v peer n = Ok (n', o) -> Out0 n'.
 Proof.
-  intros Hskip Hok Hh Hk. unfold add_vote_cs.
+  intros Hskip Hok Hh Hu Hk. unfold add_vote_cs.
+  assert (Hu' : (step n <? 8) = true) by (apply Z.ltb_lt; exact Hu).
   destruct (v_height v + 1 =? height n).
   { destruct (negb _); [intro E; injection E as <- _; apply Out_same; auto|].
     destruct (last_commit n) as [lc|]; [|intro E; injection E as <- _; apply Out_same; auto].
@@ -564,8 +565,10 @@ Proof.
                         else n1
             | None => n1 end) with (unlock_rule n1 R) in E1.
     set (n2 := unlock_rule n1 R) in *.
-    destruct (rule_same n1 R) as (H2 & Hv2 & Hr2). fold n2 in H2, Hv2, Hr2.
+    destruct (rule_same n1 R) as (H2 & Hv2 & Hr2 & Hs2). fold n2 in H2, Hv2, Hr2, Hs2.
     change (height n1) with (height n) in H2. rewrite Hh in H2. change (votes n1) with hv in Hv2.
+    change (step n1) with (step n) in Hs2.
+    unfold any23_open in E1. rewrite Hs2, Hu' in E1. cbn [andb] in E1.
     (* once the invariant holds in full after the rule, the rest is routine *)
     assert (Hcont : K0 n2 -> Out0 n5).
     { intro K2'. revert E1. destruct ((round n2 <=? R) && any23 (hv_prevotes (votes n1) R)); intro E1.
@@ -610,7 +613,8 @@ Proof.
     assert (K1' : K0 n1).
     { eapply K_step; [exact Hk|]. split; [exact Hv1|]. split; [|split; [cbn; lia|left; split; reflexivity]].
       intro q. destruct (Hsf q) as [[_ E]|S]; [rewrite E in Et; discriminate|exact S]. }
-    revert E1. destruct (N.eqb (v_type v) 2); [|discriminate].
+    revert E1. unfold any23_open, enter_new_round_open. change (step n1) with (step n). rewrite Hu'. cbn [andb].
+    destruct (N.eqb (v_type v) 2); [|discriminate].
     destruct (maj23 (hv_precommits (votes n1) (v_round v))) as [b|].
     + destruct (b_hash b); intro E1.
       * exact (presK_enter_new_round _ _ _ n1 _ _ Hh K1' E1).
@@ -630,26 +634,36 @@ Proof.
 Qed.
 
 Lemma presK_handle off c i n n' o : c_skip_commit c = false -> node_ok VS h0 off n ->
-  height n = h0 -> K0 n -> handle c i n = Ok (n', o) -> Out0 n'.
+  height n = h0 -> step n < 8 -> K0 n -> handle c i n = Ok (n', o) -> Out0 n'.
 Proof.
-  intros Hskip Hok Hh Hk. destruct i as [p sgn peer|h r idx b ok peer|v peer|h r s]; cbn [handle].
+  intros Hskip Hok Hh Hu Hk. destruct i as [p sgn peer|h r idx b ok peer|v peer|h r s]; cbn [handle].
   - apply (presK_frame _ _ (fsat_set_proposal p sgn)); auto.
   - apply presK_add_part; auto.
   - eapply presK_add_vote_cs; eauto.
   - apply presK_handle_timeout; auto.
 Qed.
 
+(* the run, as long as the node has not decided: before every input it is below the commit step
+   (a node in the commit step has +2/3 precommits for a block and only waits for the block; after
+   repair F-12a it no longer follows later rounds, so what holds of its lock and of rounds ahead of
+   it is of no interest) *)
+Fixpoint undecided_run (c : cfg) (ins : list input) (n : node) : Prop :=
+  match ins with
+  | [] => True
+  | i :: t => step n < 8 /\ match handle c i n with Ok (n1, _) => undecided_run c t n1 | _ => True end
+  end.
+
 Lemma run_K c ins : c_skip_commit c = false -> forall off n n', inv n -> node_ok VS h0 off n ->
-  (height n = h0 -> K0 n) -> run c ins n = Ok n' -> height n' = h0 -> K0 n'.
+  (height n = h0 -> K0 n) -> run c ins n = Ok n' -> undecided_run c ins n -> height n' = h0 -> K0 n'.
 Proof.
-  intro Hskip. induction ins as [|i t IH]; intros off n n' Hi Hok Hk; cbn [run].
-  - intros E Hh. injection E as <-. auto.
-  - destruct (handle c i n) as [[n1 o1]| |] eqn:E1; try discriminate. intros E Hh.
+  intro Hskip. induction ins as [|i t IH]; intros off n n' Hi Hok Hk; cbn [run undecided_run].
+  - intros E _ Hh. injection E as <-. auto.
+  - destruct (handle c i n) as [[n1 o1]| |] eqn:E1; try discriminate. intros E [Hu Hrest] Hh.
     destruct (sat_handle c i n n1 o1 E1 Hi) as (Hi1 & Hmono & _).
     pose proof (handle_ok VS Hbounded h0 off c i n n1 o1 Hok E1) as Hok1.
-    eapply IH; [exact Hi1|exact Hok1| |exact E|exact Hh].
+    eapply IH; [exact Hi1|exact Hok1| |exact E|exact Hrest|exact Hh].
     intro Hh1. destruct Hok as [Hlow Hok']. destruct (Z.eq_dec (height n) h0) as [Heq|Hne]; [|lia].
-    destruct (presK_handle off c i n n1 o1 Hskip (conj Hlow Hok') Heq (Hk Heq) E1) as [[_ K1']|Hn]; [exact K1'|lia].
+    destruct (presK_handle off c i n n1 o1 Hskip (conj Hlow Hok') Heq Hu (Hk Heq) E1) as [[_ K1']|Hn]; [exact K1'|lia].
 Qed.
 
 Lemma init_K vs lc me s n0 : vals_of vs = VS -> init_node h0 vs lc me s = Ok n0 -> K0 n0.
@@ -668,14 +682,14 @@ Qed.
 
 (* every state reached from the start of a height, while the node is in that height *)
 Theorem no_stale_lock c vs lc me s ins n0 n : c_skip_commit c = false -> vals_of vs = VS ->
-  init_node h0 vs lc me s = Ok n0 -> run c ins n0 = Ok n -> height n = h0 ->
+  init_node h0 vs lc me s = Ok n0 -> run c ins n0 = Ok n -> undecided_run c ins n0 -> height n = h0 ->
   (forall lb r b, lblock n = Some lb -> lround n < r -> r <= round n ->
      maj23 (hv_prevotes (votes n) r) = Some b -> hashes_to (Some lb) (b_hash b) = true) /\
   (forall r, round n < r -> any23 (hv_prevotes (votes n) r) = false).
 Proof.
-  intros Hskip Hv E0 Er Hh.
+  intros Hskip Hv E0 Er Hu Hh.
   assert (Hk : K0 n).
-  { eapply (run_K c ins Hskip [] n0 n); [eapply init_inv; exact E0|eapply init_ok; eauto| |exact Er|exact Hh].
+  { eapply (run_K c ins Hskip [] n0 n); [eapply init_inv; exact E0|eapply init_ok; eauto| |exact Er|exact Hu|exact Hh].
     intros _. eapply init_K; eauto. }
   destruct Hk as [_ K1 K2 _]. split.
   - intros lb r b El Hlr Hrd Hm. apply (K1 lb r b); auto.
